@@ -13,7 +13,11 @@ fn main() {
     let out = PathBuf::from(std::env::var("OUT_DIR").unwrap());
     let src_dir = out.join("abra_src");
     std::fs::create_dir_all(&src_dir).unwrap();
-    std::fs::write(src_dir.join("sigs.abra"), sigs_abra()).unwrap();
+    for (path, text) in abra_files() {
+        let dst = src_dir.join(&path);
+        std::fs::create_dir_all(dst.parent().unwrap()).unwrap();
+        std::fs::write(dst, text).unwrap();
+    }
     let gen_dir = out.join("gen");
     std::fs::create_dir_all(&gen_dir).unwrap();
     let provider = abra_core::OsFileProvider::single_dir(src_dir.clone());
